@@ -36,7 +36,12 @@ TIMEOUT_S = 180.0            # per chunk of CHUNK cases (ILP-heavy chunks on a l
 CHUNK = 8
 
 DT = {0: "soc", 1: "soi", 2: "toc", 3: "toi", 4: "cat"}
-THEOREMS_FOR_OP = {"c11.pq_exact": "pq_tree_sp_sound (Proofs/PQTreeSP.v)", "c11.elo_exact": "strict_agree / elo_correct (Proofs/ELO.v)", "c11.axes": "axis_test_correct", "c11.deciders": "spw_decide_correct / check_axis_correct / strict_agree",
+# other values of instance.data_type set on an ordinal instance (codes >= 5 are "other" for the model: TypeError)
+ODD_TYPES = ["", "t", "o", "c", "s", "oc", "so", "to", "cs", "ocs", "ocso", "tocsoc", "soc ", " soc", "SOC", "Toc", "toi", "soi",
+             "cat", "wmd", "pwg", "dat", "soctoc", "toc,soc"]
+for _k, _v in enumerate(ODD_TYPES):
+    DT[5 + _k] = _v
+THEOREMS_FOR_OP = {"c11.hist": "axis_test_correct / spw_decide_correct on the orders the instance holds", "c11.pq_exact": "pq_tree_sp_sound (Proofs/PQTreeSP.v)", "c11.elo_exact": "strict_agree / elo_correct (Proofs/ELO.v)", "c11.axes": "axis_test_correct", "c11.deciders": "spw_decide_correct / check_axis_correct / strict_agree",
                    "c11.gate": "C11_gate"}
 
 
@@ -213,7 +218,7 @@ def generate(tier, seed):
     # ---- near-axis profiles (nested structure): planted votes on a hidden axis + one vote perturbed by one or two
     #      adjacent swaps or one displaced alternative; m = 5..7, n = 3..5, strict and weak; PQ-tree (fast) against the
     #      reference on thousands of them, is_single_peaked cross-checked on the strict ones
-    nnear = 6000 if not thorough else 100000
+    nnear = 4000 if not thorough else 60000
     for i in range(nnear):
         m = 5 + i % 3
         alts = rng.sample(range(0, rng.choice([m, 12, 1000])), m)
@@ -324,6 +329,97 @@ def generate(tier, seed):
         prof = distinct_semantic([rand_weak_order(rng, alts, p_tie=(0.0 if dt == 1 else 0.5), complete=complete)
                                   for _ in range(n)])
         out.append(case("c11.gate", [dt, alts, prof, rand_perm(rng, alts)], gate=1))
+    # ---- LONG weak orders (class indices, ids, class sizes beyond 256 - CPython caches the ints -5..256): one voter
+    #      single-plateaued on the axis with >= 258 indifference classes and ties between neighbours of the axis at class
+    #      indices >= 257 on the far side of the peak; also a plateau of > 256 tied alternatives, ids > 256
+    for i in range(36 if not thorough else 200):
+        m = rng.randint(300, 400)
+        base = rng.choice([0, 0, 1000, 10 ** 6])
+        axis = [base + 3 * t for t in range(m)] if i % 3 else list(range(m))
+        if i % 4 == 3:
+            rng.shuffle(axis)
+        if i % 6 == 5:                        # a plateau of 257..300 tied alternatives, then singletons / pairs
+            l = rng.randint(0, 10)
+            r = l + rng.randint(257, 300)
+        else:
+            l = r = rng.randint(0, 15) if i % 2 == 0 else rng.randint(m - 16, m - 1)
+        order = [list(axis[l:r + 1])]
+        while l > 0 or r < m - 1:
+            room_l, room_r = l, m - 1 - r
+            if room_r and (not room_l or rng.random() < (0.93 if room_r > room_l else 0.07)):
+                k = 2 if (room_r >= 2 and rng.random() < 0.25) else 1
+                order.append(list(axis[r + 1:r + 1 + k]))
+                r += k
+            else:
+                k = 2 if (room_l >= 2 and rng.random() < 0.25) else 1
+                order.append(list(axis[l - k:l]))
+                l -= k
+        prof = [order]
+        if i % 5 == 0:                        # a second voter with the mirrored shape
+            prof.append([list(cl) for cl in order[:1]] + [list(cl) for cl in order[1:]][::1])
+            prof = distinct_semantic(prof)
+        axes = [list(axis), list(axis[::-1])]
+        bad = list(axis)
+        j = rng.randrange(m - 1)
+        bad[j], bad[j + 1] = bad[j + 1], bad[j]
+        axes.append(bad)
+        bad2 = list(axis)
+        a_ = bad2.pop(rng.randrange(m))
+        bad2.insert(rng.randrange(m), a_)
+        axes.append(bad2)
+        out.append(case("c11.axes", [dtype_of(prof), list(axis), prof, axes], m=m, kind="long"))
+
+    # ---- histories: one object built in phases through the public API with maintenance calls in between, then every
+    #      recogniser asked twice in varying order (purity), judged against the model of the profile the object holds
+    from . import c03 as C03H
+    for i in range(500 if not thorough else 4000):
+        m = rng.randint(3, 6)
+        alts = rng.sample(range(0, rng.choice([m, 30, 1000])), m)
+        axis = rand_perm(rng, alts)
+        weak = (i % 3 != 0)
+        votes = []
+        for _ in range(rng.randint(2, 5)):
+            o = planted_weak(rng, axis, p_big=(0.3 if weak else 0.0))
+            if not weak:
+                o = [[a] for c_ in o for a in c_] if all(len(c_) == 1 for c_ in o) else strictify_sp(rng, o, axis)
+            votes.append(o)
+        if i % 4 == 1:
+            votes.append(rand_weak_order(rng, alts, p_tie=(0.3 if weak else 0.0)))
+        nph = rng.randint(2, 3)
+        phases = [[] for _ in range(nph)]
+        for v in votes:
+            phases[rng.randrange(nph)].append([v, rng.choice([1, 1, 2, 300])])
+        for k in range(nph):
+            if not phases[k]:
+                phases[k].append([rng.choice(votes), 1])
+        maint = [[rng.randrange(len(C03H.MAINT)) for _ in range(rng.randint(0, 3))] for _ in range(nph)]
+        if rng.random() < 0.6:
+            maint[rng.randrange(nph - 1)].insert(0, 0)
+        how = [rng.choice([1, 2]) for _ in range(nph)]
+        axes = [axis, rand_perm(rng, alts)]
+        script = [rng.randrange(4) for _ in range(6)]      # 0 axis test #0, 1 axis test #1, 2 pq-tree, 3 is_single_peaked
+        out.append(case("c11.hist", [alts, phases, maint, how, axes, script], hist=1))
+
+    # every odd data_type string on an ordinal instance with strict complete / weak complete content (the guard must be
+    # a membership test in {"soc", "toc"}: substrings, the empty string, other cases and other types are refused),
+    # for the five guarded functions; positive controls: soc / toc are not refused
+    for k_, name in enumerate(ODD_TYPES):
+        for rep in range(2):
+            m = rng.randint(2, 4)
+            alts = rng.sample(range(0, 30), m)
+            axis = rand_perm(rng, alts)
+            prof = distinct_semantic([planted_weak(rng, axis, p_big=(0.0 if rep == 0 else 0.4)) for _ in range(rng.randint(1, 3))])
+            if rep == 0:
+                prof = distinct_semantic([[[a] for cl in o for a in cl] for o in prof])
+            out.append(case("c11.gate", [5 + k_, alts, prof, axis], gate=2))
+    for rep in range(6 if not thorough else 30):
+        m = 3
+        alts = rng.sample(range(0, 30), m)
+        axis = rand_perm(rng, alts)
+        prof = distinct_semantic([planted_weak(rng, axis, p_big=(0.0 if rep % 2 == 0 else 0.4)) for _ in range(2)])
+        if rep % 2 == 0:
+            prof = distinct_semantic([[[a] for cl in o for a in cl] for o in prof])
+        out.append(case("c11.gate", [dtype_of(prof), alts, prof, axis], gate=3))
 
     # ---- is_single_peaked_pq_tree against the ALGORITHM it runs (Model/PQTreeSP.v: sp_matrix, isC1P's duplicate
     #      removal, the mirrored PQ-tree of Model/PQTree.v): exact agreement of the verdict at EVERY size; the mirror is
@@ -496,6 +592,34 @@ def impl(c):
             r = guarded(SPM.is_single_peaked, _instance(dt, alts, profile))
             res["elo"] = [0, int(bool(r[1][0]))] if r[0] == 0 else r
         return res
+    if op == "c11.hist":
+        from . import c03 as C03H
+        from .common import snapshot, snap_diff
+        alts, phases, maint, how, axes, script = pl
+        inst = C03H.history_build(phases, maint, how)
+        res = {"dt": str(inst.data_type), "calls": []}
+        for code in script:
+            before = snapshot(inst)
+            if code in (0, 1):
+                ax = list(axes[code])
+                r = guarded(SPM.is_single_peaked_axis, inst, ax)
+                r = [0, int(bool(r[1]))] if r[0] == 0 else r
+                C03H._poison(ax)
+            elif code == 2:
+                r = guarded(SPM.is_single_peaked_pq_tree, inst)
+                r = [0, int(bool(r[1]))] if r[0] == 0 else r
+            else:
+                if inst.data_type != "soc":
+                    res["calls"].append([code, [2], None])
+                    continue
+                r = guarded(SPM.is_single_peaked, inst)
+                if r[0] == 0:
+                    ax = r[1][1]
+                    r = [0, int(bool(r[1][0]))]
+                    if isinstance(ax, list):
+                        C03H._poison(ax)
+            res["calls"].append([code, r, snap_diff(before, snapshot(inst))])
+        return res
     if op == "c11.elo_exact":
         alts, rankings, planted = pl
         inst = ordinal_instance([([[a] for a in v], 1) for v in rankings], data_type="soc", alts=list(alts))
@@ -523,9 +647,12 @@ def impl(c):
     if op == "c11.gate":
         dt, alts, profile, axis = pl
         res = {}
-        for name, fn, args in (("axis", SPM.is_single_peaked_axis, (list(axis),)),
-                               ("pq", SPM.is_single_peaked_pq_tree, ()),
-                               ("ilp", SPM.is_single_peaked_ILP, ())):
+        fns = [("axis", SPM.is_single_peaked_axis, (list(axis),)),
+               ("pq", SPM.is_single_peaked_pq_tree, ()),
+               ("ilp", SPM.is_single_peaked_ILP, ())]
+        if c["tags"].get("gate", 1) >= 2:
+            fns += [("vdel", SPM.approx_SP_voter_deletion_ILP, ()), ("adel", SPM.approx_SP_alternative_deletion_ILP, ())]
+        for name, fn, args in fns:
             r = guarded(fn, _instance(dt, alts, profile), *args)
             res[name] = r if r[0] == 1 else [0, 0]
         return res
@@ -553,6 +680,13 @@ def oracle_requests(c, r):
         if isinstance(planted, list) and planted:
             reqs.append(("c11.check_axis", [alts, profile, planted]))
         return reqs
+    if op == "c11.hist":
+        from . import c03 as C03H
+        alts, phases, maint, how, axes, script = pl
+        orders, _ = C03H.history_expected(phases)
+        dt = dtype_of(orders)
+        return [("c11.axis_test", [dt, orders, axes[0]]), ("c11.axis_test", [dt, orders, axes[1]]),
+                ("c11.decide", [alts, orders])]
     if op == "c11.elo_exact":
         alts, rankings, planted = pl
         reqs = [("c03.elo", [alts, rankings]), ("c11.check_axis", [alts, [[[a] for a in v] for v in rankings], planted])]
@@ -614,6 +748,28 @@ def judge(c, r, mres):
                     "reason": "is_single_peaked_pq_tree -> %r, the mirrored algorithm (sp_matrix + isC1P + PQ-tree) -> %r"
                               % (r["pq"], mres[0])}
         return None
+    if op == "c11.hist":
+        from . import c03 as C03H
+        alts, phases, maint, how, axes, script = pl
+        orders, _ = C03H.history_expected(phases)
+        want_dt = DT[dtype_of(orders)]
+        if r["dt"] != want_dt:
+            return {"kind": "mismatch", "theorem": "C11 quantifier (soc/toc instance built through the public API)",
+                    "reason": "data_type %r after the construction, expected %r" % (r["dt"], want_dt)}
+        names = ["is_single_peaked_axis(axis #0)", "is_single_peaked_axis(axis #1)", "is_single_peaked_pq_tree", "is_single_peaked"]
+        for j, (code, ans, diff) in enumerate(r["calls"]):
+            if ans == [2]:
+                continue
+            if diff:
+                return {"kind": "mismatch", "theorem": "purity of the recognisers",
+                        "reason": "call %d (%s) modified the instance: %s" % (j + 1, names[code], diff)}
+            exp = mres[code] if code in (0, 1) else [0, mres[2]]
+            if ans != exp:
+                return {"kind": "mismatch" if ans[0] == 0 else "exception",
+                        "theorem": "axis_test_correct" if code in (0, 1) else "spw_decide_correct / strict_agree",
+                        "reason": "call %d on the same object: %s -> %r, model of the profile the object holds -> %r"
+                                  % (j + 1, names[code], ans, exp)}
+        return None
     if op == "c11.elo_exact":
         if r["elo"][0] == 1:
             msg = proto.untext(r["elo"][2]) if len(r["elo"]) > 2 else "error code %r" % (r["elo"][1],)
@@ -629,12 +785,19 @@ def judge(c, r, mres):
                     "reason": "is_single_peaked returned the axis %r, not a valid single-peaked axis" % (r.get("axis"),)}
         return None
     if op == "c11.gate":
+        refuse = pl[0] not in (0, 2)
         for name, mi in zip(("axis", "pq", "ilp"), mres):
-            if mi != [1, 1]:
-                return {"kind": "broken-correspondence", "reason": "model gate did not refuse: %r" % (mi,)}
-            if r[name] != [1, 1]:
+            if (mi == [1, 1]) != refuse:
+                return {"kind": "broken-correspondence", "reason": "model gate %r for data type %r" % (mi, DT[pl[0]])}
+        for name in ("axis", "pq", "ilp", "vdel", "adel"):
+            if name not in r:
+                continue
+            if refuse and r[name] != [1, 1]:
                 return {"kind": "mismatch", "theorem": "C11_gate",
-                        "reason": "%s on a %s instance: %r, expected TypeError" % (name, DT[pl[0]], r[name])}
+                        "reason": "%s on an instance with data_type %r: %r, expected TypeError" % (name, DT[pl[0]], r[name])}
+            if not refuse and r[name][0] == 1:
+                return {"kind": "mismatch", "theorem": "C11_gate",
+                        "reason": "%s on a %s instance was refused / raised: %r" % (name, DT[pl[0]], r[name])}
         return None
     return "unknown op"
 
@@ -645,11 +808,16 @@ def nontrivial(c, r, m):
         return False
     if c["op"] == "c11.elo_exact":
         return len(pl[0]) >= 3 and len(pl[1]) >= 2
+    if c["op"] == "c11.hist":
+        return True
     return len(pl[1]) >= 3 and len(pl[2]) >= 2
 
 
 def stats(c, r, m):
     op, pl = c["op"], c["payload"]
+    if op == "c11.axes" and c["tags"].get("kind") == "long":
+        return ["long weak order: %d classes%s" % (len(pl[2][0]) // 50 * 50, ", plateau > 256" if len(pl[2][0][0]) > 256 else ""),
+                "long weak order: axis tests accepted %d / rejected %d" % (sum(1 for x in m if x == [0, 1]), sum(1 for x in m if x == [0, 0]))]
     if op == "c11.axes":
         t = sum(1 for x in m if x == [0, 1])
         return ["axis_test m=%d" % len(pl[1]), "axis_test calls", ] + \
@@ -676,6 +844,9 @@ def stats(c, r, m):
         if any(len(o[0]) >= 2 for o in pl[2]):
             lab.append("has tied top")
         return lab
+    if op == "c11.hist":
+        return ["history: %d phases, %d recogniser calls on one object" % (len(pl[1]), len(pl[5])),
+                "history: verdict %s" % ("SP" if m[2] == 1 else "notSP")]
     if op == "c11.elo_exact":
         return ["elo_exact (is_single_peaked == its mirror) m=%d n=%d" % (len(pl[0]), len(pl[1])),
                 "elo_exact %s%s" % ("SP" if m[0][0] == 0 and m[0][1][0] == 1 else "notSP",
@@ -689,11 +860,17 @@ def stats(c, r, m):
         mm = len(pl[1])
         return ["pq_exact (verdict == mirrored algorithm) m=%s: %s" % (mm if mm <= 7 else ("8-15" if mm <= 15 else "16-30"),
                                                                       "SP" if m and m[0] == [0, 1] else "notSP")]
-    return ["gate dt=%s" % DT[pl[0]]]
+    return ["gate data_type=%r%s" % (DT[pl[0]], " (5 functions)" if c["tags"].get("gate", 1) >= 2 else "")]
 
 
 def describe(c):
     pl = c["payload"]
+    if c["op"] == "c11.hist":
+        from . import c03 as C03H
+        return {"op": c["op"], "alternatives": pl[0], "phases ([order, multiplicity] per phase)": pl[1],
+                "calls after each phase": [[C03H.MAINT[x] for x in mk] for mk in pl[2]],
+                "append method per phase (1 append_order_list, 2 append_vote_map)": pl[3], "axes": pl[4],
+                "recogniser calls (0/1 axis test on axis #0/#1, 2 pq-tree, 3 is_single_peaked)": pl[5]}
     if c["op"] == "c11.elo_exact":
         return {"op": c["op"], "data_type": "soc", "alternatives": pl[0], "orders (best first)": pl[1], "planted_axis": pl[2]}
     d = {"op": c["op"], "data_type": DT[pl[0]], "alternatives": pl[1], "orders": pl[2]}
@@ -710,6 +887,19 @@ def describe(c):
 
 def shrink(c):
     op, pl = c["op"], c["payload"]
+    if op == "c11.hist":
+        alts, phases, maint, how, axes, script = pl
+        if len(script) > 1:
+            for i in range(len(script)):
+                yield dict(c, payload=[alts, phases, maint, how, axes, script[:i] + script[i + 1:]])
+        for k in range(len(maint)):
+            if maint[k]:
+                yield dict(c, payload=[alts, phases, maint[:k] + [maint[k][1:]] + maint[k + 1:], how, axes, script])
+        for k in range(len(phases)):
+            if len(phases[k]) > 1:
+                for t in range(len(phases[k])):
+                    yield dict(c, payload=[alts, phases[:k] + [phases[k][:t] + phases[k][t + 1:]] + phases[k + 1:], maint, how, axes, script])
+        return
     if op == "c11.elo_exact":
         alts, rankings, planted = pl
         if len(rankings) > 1:
